@@ -280,6 +280,67 @@ def v4(run, ven):
     run.saw('helpers defined in both headers', shared)
 
 
+def v5(run):
+    """generic engine: a struct passed or returned by value goes through a Python closure that hands the C wrapper a pointer.  Decided by
+    walking _make_struct_wrapper and the closure it returns symbolically, twice: the buffer is allocated by the call that uses it (two calls
+    never share one), the C function receives the other arguments unchanged and in order, and the result is read from that call's buffer"""
+    from ..pyast import sympath as sp
+    gen = cffi_mod('vengine_gen')
+    F = 'VGenericEngine._make_struct_wrapper'
+    fn = gen.find(F)
+    for which in ('result', 0, 1, 2):
+        counter = [0]
+
+        def alloc(recv, a, k, env, eff, kind=None):
+            counter[0] += 1
+            return {'__alloc__': counter[0], '__args__': tuple(a), 0: sp.Term('item0', (counter[0],))}
+        calls = []
+        ev = sp.Evaluator({'oldfunc': lambda a, k, env, eff: calls.append(tuple(a)) or sp.Opq('<result of the C wrapper>')},
+                          {'new': alloc, 'newp': alloc})
+        paths = [p_ for p_ in ev.run(fn, {'i': which, 'oldfunc': sp.Opq('oldfunc')}) if p_.outcome and p_.outcome[0] == 'return']
+        run.need(len(paths) == 1 and isinstance(paths[0].outcome[1], sp.Closure), '%s: i=%r: expected one path returning a nested function' % (F, which))
+        clo = paths[0].outcome[1]
+        made_outside = counter[0]
+        outs = []
+        for k in range(2):
+            args = tuple(sp.Opq('arg%d_%d' % (k, j)) for j in range(3))
+            ps = ev.run(clo.fn, dict(clo.env, args=args))
+            rets = [p_.outcome for p_ in ps]
+            run.need(len(ps) == 1 and rets[0] and rets[0][0] == 'return', '%s: i=%r: the closure does not return on a single path' % (F, which))
+            outs.append((args, calls[-1] if len(calls) == k + 1 else None, rets[0][1]))
+        run.need(all(c is not None for _a, c, _r in outs), '%s: i=%r: the closure does not call the C wrapper exactly once per call' % (F, which))
+        for _a, c, _r in outs:
+            if any(isinstance(x, sp.Opq) and x.text.startswith('*') for x in c):
+                raise AnalysisError('%s: i=%r: the argument tuple handed to the C wrapper is not understood (%r)' % (F, which, c))
+        bufs = []
+        ok, why = True, ''
+        for args, c, r in outs:
+            if which == 'result':
+                b = c[0] if c else None
+                shape = isinstance(b, dict) and '__alloc__' in b and c[1:] == args and r == b.get(0)
+            else:
+                b = c[which] if len(c) == 3 else None
+                shape = isinstance(b, dict) and '__alloc__' in b and b['__args__'][-1:] == (args[which],) and \
+                    all(c[j] is args[j] for j in range(3) if j != which) and isinstance(r, sp.Opq) and r.text == '<result of the C wrapper>'
+            if not shape:
+                ok, why = False, 'the C wrapper is called with %r for arguments %r and the closure returns %r' % (c, args, r)
+                break
+            bufs.append(b['__alloc__'])
+        run.ob('V5/generic-engine-struct-closure-passes-a-pointer-and-the-other-arguments-unchanged', F, 'i=%r' % (which,), ok, gen.where(fn), why)
+        if ok:
+            fresh = len(set(bufs)) == 2 and all(b > made_outside for b in bufs)
+            run.ob('V5/generic-engine-struct-buffer-belongs-to-one-call', F, 'i=%r' % (which,), fresh, gen.where(fn),
+                   'two calls of the closure use buffer(s) %s, %d allocation(s) were made before the closure existed: an earlier result/argument is overwritten by a later call'
+                   % (bufs, made_outside))
+    # every indirection of the loaded function goes through it
+    L = 'VGenericEngine._loaded_gen_function'
+    lf = gen.find(L)
+    loops = [n for n in ast.walk(lf) if isinstance(n, ast.For) and u(n.iter) == 'indirections']
+    okl = len(loops) == 1 and len(loops[0].body) == 1 and isinstance(loops[0].body[0], ast.Assign) and \
+        u(loops[0].body[0].value).replace(' ', '').replace('\n', '').startswith('self._make_struct_wrapper(newfunction,i,typ,')
+    run.ob('V5/every-struct-indirection-is-wrapped', L, 'for i, typ in indirections: newfunction = self._make_struct_wrapper(newfunction, i, typ, ...)', okl, gen.where(lf))
+
+
 def check(run):
     run.technique = ('sibling cross-check of the two C generators (set_source: Recompiler; verify: VCPythonEngine): both are walked symbolically '
                      '(Python ast, abstract types of every class, nothing executed) and the emitted wrapper text, conversions and layout tables are compared; '
@@ -290,8 +351,9 @@ def check(run):
     v2(run, rec, ven)
     v3(run, ven)
     v4(run, ven)
+    v5(run)
     run.assume('decided: that the CPython verify engine and set_source() generate the same wrapper, the same conversions for every type class both support, and that '
                'verify() takes or checks the whole layout from the compiler; the macros both texts use are the same export slots (C03 R5); not decided: the '
                'generic engine (dlopen/libffi, as ABI mode), global variables and constants, call results on concrete arguments')
-    for rule, k in (('V1', 12), ('V2', 22), ('V3', 6), ('V4', 2)):
+    for rule, k in (('V1', 12), ('V2', 22), ('V3', 6), ('V4', 2), ('V5', 9)):
         run.min_instances(rule, k)
